@@ -213,16 +213,17 @@ def gen_text(rng, tt, cct):
 
 
 def split_tf(rng, tf, cct, force=False):
-  """Split a text into the text fields of consecutive TTI blocks (<= 111 used bytes each, a diacritic pair is
+  """Split a text into the text fields of consecutive TTI blocks (<= 112 used bytes each, a diacritic pair is
   never separated)."""
   def bad_cut(seq, cut):
     return cct == "00" and 0xC1 <= seq[cut - 1] <= 0xCF
   rest = list(tf)
   chunks = []
   extra = rng.randint(1, 2) if (force or (len(rest) >= 2 and rng.random() < 0.2)) else 0
-  while len(rest) > 111 or (extra > 0 and len(rest) >= 2):
-    hi = min(111, len(rest) - 1)
-    cut = rng.randint(1, hi)
+  # a text field may be used up to its last byte (112): there is then no unused space and no 8Fh filler in it
+  while len(rest) > 112 or (extra > 0 and len(rest) >= 2):
+    hi = min(112, len(rest) - 1)
+    cut = hi if (hi == 112 and rng.random() < 0.4) else rng.randint(1, hi)
     while cut >= 1 and bad_cut(rest, cut):
       cut -= 1
     if cut < 1:
